@@ -94,6 +94,8 @@ def dask_case(draw, ops=None):
     info = {"cls": spec["cls"], "n": spec["n"], "sshape": spec["sshape"], "dtype": str(np.dtype(G.DT[spec["dtype"]])), "start": spec["t0"] is not None,
             "radio": spec["cls"] != "Signal", "baseband": spec["cls"] in G.BASEBAND, "positive_band": True}
     args = op.args(draw, info)
+    if draw(st.integers(0, 9)) == 0:
+        spec["nonfinite"] = {"at": [draw(st.integers(0, 10**6)) for _ in range(draw(st.integers(1, 2)))]}  # NaN (and +Inf) samples in the data
     whole = op.fft_time and draw(st.integers(0, 4)) != 0
     chunks = draw(chunking((spec["n"],) + tuple(spec["sshape"]), whole))
     return {"sig": spec, "op": name, "args": args, "chunks": chunks, "sched": draw(st.sampled_from(["synchronous", "synchronous", "threads"]))}
@@ -120,6 +122,19 @@ def compare(r_np, r_da, op, sched, what):
     check(a.shape == b.shape and a.dtype == b.dtype, "{}: computed shape/dtype {} {} vs {} {}", what, a.shape, a.dtype, b.shape, b.dtype)
     if a.size == 0:
         return
+    if a.dtype.kind in "fc":
+        # non-finite samples sit at the same places, and exact zeros carry the same sign (a zero-filled sample is +0 on both backends)
+        check(np.array_equal(np.isnan(a), np.isnan(b)), "{}: NaN samples at different places: Dask {} vs NumPy {} of {}", what, int(np.isnan(a).sum()),
+              int(np.isnan(b).sum()), a.size)
+        fin = np.isfinite(b) & np.isfinite(a)
+        check(np.array_equal(np.isinf(a), np.isinf(b)), "{}: infinite samples at different places", what)
+        for part in ((lambda v: v.real), (lambda v: v.imag)) if a.dtype.kind == "c" else ((lambda v: v),):
+            za, zb = part(a), part(b)
+            zero = (zb == 0) & (za == 0)
+            check(np.array_equal(np.signbit(za[zero]), np.signbit(zb[zero])), "{}: exact zeros carry another sign than in the NumPy-backed result "
+                  "({} of {} zeros)", what, int(np.sum(np.signbit(za[zero]) != np.signbit(zb[zero]))), int(zero.sum()))
+        if not fin.all():
+            a, b = np.where(fin, a, 0), np.where(fin, b, 0)
     if op.exact:
         check(a.tobytes() == b.tobytes(), "{}: computed values differ from the NumPy-backed result (max |diff| {:.3g})", what,
               float(np.max(np.abs(a.astype(np.complex128) - b.astype(np.complex128)))))
@@ -254,6 +269,11 @@ def run_joint(case, stt):
         what = "%s(%s) computed together with %d other result(s)" % (op.name, arglist[i], len(idx) - 1)
         check(o.shape == b.shape and o.dtype == b.dtype, "{}: shape/dtype {} {} vs {} {}", what, o.shape, o.dtype, b.shape, b.dtype)
         if o.size:
+            if o.dtype.kind in "fc" and not (np.isfinite(o).all() and np.isfinite(b).all()):
+                check(np.array_equal(np.isnan(o), np.isnan(b)) and np.array_equal(np.isinf(o), np.isinf(b)), "{}: non-finite samples at other places than in "
+                      "its NumPy-backed result", what)
+                fin = np.isfinite(o) & np.isfinite(b)
+                o, b = np.where(fin, o, 0), np.where(fin, b, 0)
             eps = np.finfo(o.dtype).eps if o.dtype.kind in "fc" else 0
             d = float(np.max(np.abs(o - b)))
             tol = 0 if op.exact else 8 * eps * (1 + np.log2(max(b.shape[0], 2))) * float(np.max(np.abs(b)))
